@@ -20,6 +20,23 @@ def sh(cmd, **kw):
     return p.returncode, p.stdout
 
 
+def sh_limited(cmd, cwd, env, limit):
+    """a check run against a changed repository may not terminate (a change can make the node loop):
+    the whole process group is killed after `limit` seconds and the run counts as exit 124"""
+    import signal
+    p = subprocess.Popen(cmd, stdout=subprocess.PIPE, stderr=subprocess.STDOUT, text=True, cwd=cwd, env=env, start_new_session=True)
+    try:
+        out, _ = p.communicate(timeout=limit)
+        return p.returncode, out
+    except subprocess.TimeoutExpired:
+        try:
+            os.killpg(p.pid, signal.SIGKILL)
+        except ProcessLookupError:
+            pass
+        out, _ = p.communicate()
+        return 124, (out or "") + "\n[killed after %s s]" % limit
+
+
 def evaluate(seed, patch, checks, outdir, stop_on_catch=False):
     lab = os.path.join(LABROOT, seed)
     shutil.rmtree(lab, ignore_errors=True)
@@ -41,7 +58,8 @@ def evaluate(seed, patch, checks, outdir, stop_on_catch=False):
         res = {}
         for c in checks:
             t = time.time()
-            rc, out = sh([lab + "/verif/check", c, "--tier", os.environ.get("SEED_TIER", "quick")], cwd=lab + "/verif", env=env)
+            rc, out = sh_limited([lab + "/verif/check", c, "--tier", os.environ.get("SEED_TIER", "quick")], lab + "/verif", env,
+                                 None if os.environ.get("SEED_TIER") == "thorough" else 1800)
             kinds = []
             for l in out.splitlines():
                 if l.startswith("VIOLATION"):
